@@ -115,7 +115,7 @@ prop(
     explanation=(
         "Decided per stage, because parsing a whole datagram of arbitrary bytes is not tractable (C07). "
         "(1) Dispatcher: well-formed datagrams [INFO_REPLY, HEARTBEAT_FRAG] and [INFO_SRC, INFO_REPLY] (datagrams starting with "
-        "INFO_TS are in the thorough tier, undecided: the solver runs out of memory) "
+        "INFO_TS are undecided: the solver runs out of memory; those harnesses are kept in the file but parked, i.e. not run) "
         "with symbolic field values go through the real parser RtpsMessageRead::try_from and the real MessageReceiver "
         "until exhaustion - the pair DcpsDomainParticipant::handle_data runs on every datagram: no panic, exactly the "
         "entity submessage is yielded (also after an INFO_REPLY), the interpreter state (source prefix) is the "
@@ -159,7 +159,7 @@ prop(
                "'no unwinding assertion fails'. Not a proof for arbitrary datagrams.",
     level_note="trusted: Kani/CBMC, the harness-side little-endian datagram writer (RTPS 2.x clause 9.4 offsets; that the real "
                "encoder produces these layouts is C08), critical-section stubs in the participant harnesses",
-    technique="Kani/CBMC proof harnesses on DcpsDomainParticipant::handle_data, rtps_messages::overall_structure::RtpsMessageRead, rtps::message_receiver, rtps::writer_proxy",
+    technique="Kani/CBMC proof harnesses on the parser + MessageReceiver pair that DcpsDomainParticipant::handle_data runs, rtps_messages::overall_structure::RtpsMessageRead, rtps::message_receiver, rtps::writer_proxy",
     assumptions=[
         "NOT trigger KF-C06-5 (firstSN > i64::MIN) in c06_heartbeat_arithmetic__rest; pre-state numbers within +-2^62 in c06_gap_range_proxy",
         "fragment_size != 0 in c06_data_frag_arithmetic (decoder invariant, asserted separately)",
